@@ -27,6 +27,7 @@ pub fn property() -> Property {
 fn gens(tier: Tier) -> Vec<Gen> {
     vec![
         Gen { name: "status-codes", count: 100 * 2, exhaustive: true, run: run_status_codes },
+        Gen { name: "non-ascii-location", count: (5 * 4) as u64, exhaustive: true, run: run_non_ascii_location },
         Gen { name: "non-http-location-via-proxy", count: (5 * 4 * 2) as u64, exhaustive: true, run: run_non_http_via_proxy },
         Gen { name: "chains", count: (9 * 10 * 2) as u64, exhaustive: true, run: run_chains },
         Gen { name: "webs", count: tier.pick(6_000, 500_000), exhaustive: false, run: run_web },
@@ -274,7 +275,25 @@ fn run_one_m(ctx: &mut Ctx, web: Web, start_url: &str, max: u32, follow: bool, l
     let web = Arc::new(web);
     let world = serve(web.clone());
     // (whether a redirect is followed does not depend on the request method)
-    let mut prepared = attohttpc::RequestBuilder::new(attohttpc::Method::from_bytes(method.as_bytes()).unwrap(), start_url).max_redirections(max).follow_redirects(follow).prepare();
+    // half of the walks take their redirect settings from a Session and then touch an unrelated
+    // request-level setting (the settings are copied on write at that moment)
+    let via_session = (max as usize + start_url.len() + web.table.len()) % 2 == 0 && matches!(method, "GET" | "POST" | "PATCH" | "PUT" | "DELETE");
+    let mut prepared = if via_session {
+        let mut sess = attohttpc::Session::new();
+        sess.max_redirections(max);
+        sess.follow_redirects(follow);
+        let rb = match method {
+            "GET" => sess.get(start_url),
+            "POST" => sess.post(start_url),
+            "PATCH" => sess.patch(start_url),
+            "PUT" => sess.put(start_url),
+            _ => sess.delete(start_url),
+        };
+        ctx.count("walks_with_session_level_redirect_settings", 1);
+        rb.read_timeout(std::time::Duration::from_secs(9)).prepare()
+    } else {
+        attohttpc::RequestBuilder::new(attohttpc::Method::from_bytes(method.as_bytes()).unwrap(), start_url).max_redirections(max).follow_redirects(follow).prepare()
+    };
     let res = prepared.send();
     let obs = observe(&world, res);
     // the same prepared request sent again starts from the same URL with a fresh budget
@@ -462,6 +481,46 @@ fn run_non_http_via_proxy(ctx: &mut Ctx, _rng: &mut Rng, index: u64) {
     ctx.count("non_http_scheme_location", 1);
     if res.is_ok() || world.dial_count() != 1 {
         ctx.violation("non-http-location-followed", format!("a Location with a non-http scheme must end the exchange with an error and no further request; {descr}"));
+    }
+    ctx.nontrivial(descr.as_bytes());
+}
+
+/// a Location with raw (not percent-encoded) UTF-8 octets is outside RFC 3986's syntax: either it
+/// is refused (error, no further request) or its octets are percent-encoded AS THEY ARE
+/// (`/caf%C3%A9`); it is never re-coded into something the server did not send
+fn run_non_ascii_location(ctx: &mut Ctx, _rng: &mut Rng, index: u64) {
+    let status = [301u16, 302, 303, 307, 308][(index % 5) as usize];
+    let (loc, want_target): (&[u8], &str) = [
+        (&b"/caf\xc3\xa9"[..], "/caf%C3%A9"),
+        (&b"/p?q=\xc3\xbc&r=1"[..], "/p?q=%C3%BC&r=1"),
+        (&b"../\xe6\x97\xa5\xe6\x9c\xac/x"[..], "/%E6%97%A5%E6%9C%AC/x"),
+        (&b"http://a.test/\xf0\x9f\x98\x80"[..], "/%F0%9F%98%80"),
+    ][((index / 5) % 4) as usize];
+    let loc2 = loc.to_vec();
+    let world = World::install(move |_, idx, _| {
+        let resp = if idx == 0 {
+            let mut r = format!("HTTP/1.1 {status} Moved\r\nLocation: ").into_bytes();
+            r.extend_from_slice(&loc2);
+            r.extend_from_slice(b"\r\nContent-Length: 0\r\n\r\n");
+            r
+        } else {
+            b"HTTP/1.1 200 OK\r\nContent-Length: 2\r\n\r\nok".to_vec()
+        };
+        crate::transport::Answer::Script(vec![crate::transport::Step::Data(resp)], crate::transport::WriteFaults::default())
+    });
+    let res = attohttpc::get("http://a.test/dir/start").send();
+    let second_target: Option<String> = if world.dial_count() >= 2 {
+        let w = world.trace(1).written;
+        String::from_utf8_lossy(&w).split(' ').nth(1).map(|s| s.to_owned())
+    } else {
+        None
+    };
+    let descr = format!("{status} Location: {} -> {:?}, {} connections, second request target {second_target:?}", show(loc), res.as_ref().map(|r| r.status().as_u16()).map_err(|e| format!("{e:?}")), world.dial_count());
+    ctx.count("non_ascii_locations", 1);
+    match (&res, &second_target) {
+        (Err(_), None) => ctx.count("non_ascii_location_refused", 1),
+        (Ok(r), Some(t)) if r.status().as_u16() == 200 && t.eq_ignore_ascii_case(want_target) => ctx.count("non_ascii_location_percent_encoded", 1),
+        _ => ctx.violation("non-ascii-location-recoded", format!("expected either a refusal without a further request or the target {want_target}; {descr}")),
     }
     ctx.nontrivial(descr.as_bytes());
 }
